@@ -124,6 +124,7 @@ func (e *Engine) setup(fn *ssa.Function, con *Contract, choice []splitChoice) *f
 	IntDefs = map[string]*Term{}
 	x.wrapSigned = con.Opts["wrap-signed"] != ""
 	x.unknownPure = con.Opts["unknown-calls-pure"] != ""
+	x.noInline = con.Opts["no-inline"] != ""
 	x.prunePaths = con.Opts["prune-paths"] != ""
 	x.vc.NoSafety = con.Opts["no-safety"] != ""
 	x.vc.COI = con.Opts["cone-of-influence"] != ""
